@@ -652,6 +652,7 @@ def gen_pedigree_config(rng, tier):
         "n_samples": n,
         "inbreeding_mode": "none",  # call-pedigree has no --inbreeding
         "ped_ploidy": rng.choice([2, 4, 4]),
+        "mixed_ploidy": rng.random() < 0.4,
         "ped_seed": rng.randrange(1 << 30),
         "dummy_parent": rng.random() < 0.3,
         "tau_mode": rng.choice(["default", "default", "scalar", "file"]),
@@ -693,8 +694,9 @@ def _record_call_reads(m, argv):
     return out
 
 
-def run_pedigree_cli(ctx):
-    """C18 at the command line: the joint model `mchap call-pedigree` hands to its sampler - translated back to sample names -
+def run_pedigree_cli(ctx, report=False):
+    """(report=True: C14 at the command line - the GT / GPM call-pedigree prints for every individual vs the trace its sampler returned.)
+    C18 at the command line: the joint model `mchap call-pedigree` hands to its sampler - translated back to sample names -
     is the pedigree the files describe (parents in order, gamete ploidy / ibd / error per parent-child pair, ploidy), over the
     record's usable alleles with the input's prior, and row i of the read arrays holds sample i's own reads."""
     import random
@@ -708,18 +710,19 @@ def run_pedigree_cli(ctx):
         hv = os.path.join(tmp, "haplotypes.vcf")
         loci = effective_loci(cfg, write_haplotype_vcf(cfg, ds, hv))
         by_name = {l["name"]: l for l in loci}
-        pl = cfg["ped_ploidy"]
         names = list(ds["samples"])
         everyone = names + (["GHOST"] if cfg["dummy_parent"] else [])
+        pls = {s: (rng.choice([2, 4]) if cfg.get("mixed_ploidy") else cfg["ped_ploidy"]) for s in everyone}
         ploidy_file = os.path.join(tmp, "ped.ploidy")
         with open(ploidy_file, "w") as f:
             for s in everyone:
-                f.write("%s\t%d\n" % (s, pl))
+                f.write("%s\t%d\n" % (s, pls[s]))
         age = list(everyone)
         rng.shuffle(age)
         parents = {}
         for i, s in enumerate(age):
-            older = age[:i]
+            # parent-child links only between individuals of the same ploidy (balanced gametes by default)
+            older = [o for o in age[:i] if pls[o] == pls[s]]
             p = rng.choice(older + [None]) if older else None
             q = rng.choice(older + [None, None]) if older else None
             parents[s] = (p, q)
@@ -732,14 +735,14 @@ def run_pedigree_cli(ctx):
         argv = ["--bam"] + ds["bam_files"] + ["--ploidy", ploidy_file, "--haplotypes", hv, "--sample-parents", ped_file] + filter_args(cfg)
         if cfg["use_afp"]:
             argv += ["--prior-frequencies", "AFP"]
-        tau = {s: (pl // 2, pl // 2) for s in everyone}
-        if cfg["tau_mode"] == "scalar":
-            argv += ["--gamete-ploidy", str(pl // 2)]
+        tau = {s: (pls[s] // 2, pls[s] // 2) for s in everyone}
+        if cfg["tau_mode"] == "scalar" and len(set(pls.values())) == 1:
+            argv += ["--gamete-ploidy", str(pls[everyone[0]] // 2)]
         elif cfg["tau_mode"] == "file":
             path = os.path.join(tmp, "tau.txt")
             with open(path, "w") as f:
                 for s in everyone:
-                    tau[s] = rng.choice([(1, 3), (3, 1), (2, 2), (2, 2)]) if pl == 4 else (1, 1)
+                    tau[s] = rng.choice([(1, 3), (3, 1), (2, 2), (2, 2)]) if pls[s] == 4 else (1, 1)
                     f.write("%s\t%d\t%d\n" % (s, tau[s][0], tau[s][1]))
             argv += ["--gamete-ploidy", path]
         lam = {s: (0.0, 0.0) for s in everyone}
@@ -774,9 +777,10 @@ def run_pedigree_cli(ctx):
 
         class Rec(real_cls):
             def fit(self, sample_reads, sample_read_counts, **kw):
+                tr = real_cls.fit(self, sample_reads, sample_read_counts, **kw)
                 recs.append({"locus": cur["locus"], "samples": list(cur["samples"]), "model": self,
-                             "reads": np.array(sample_reads), "counts": np.array(sample_read_counts)})
-                return real_cls.fit(self, sample_reads, sample_read_counts, **kw)
+                             "reads": np.array(sample_reads), "counts": np.array(sample_read_counts), "trace": np.array(tr.genotypes)})
+                return tr
 
         def csg(self, data):
             cur["locus"] = data.locus.name
@@ -808,7 +812,7 @@ def run_pedigree_cli(ctx):
             for s in samples:
                 i = pos[s]
                 got_par = tuple(None if int(x) < 0 else samples[int(x)] for x in arrs["sample_parents"][i])
-                if int(arrs["sample_ploidy"][i]) != pl or float(arrs["sample_inbreeding"][i]) != 0.0:
+                if int(arrs["sample_ploidy"][i]) != pls[s] or float(arrs["sample_inbreeding"][i]) != 0.0:
                     raise Violation("cli_pedigree", "sample %s modelled with ploidy %r / inbreeding %r (%s)" % (s, arrs["sample_ploidy"][i], arrs["sample_inbreeding"][i], where), step=0)
                 # a parent-child pair is (parent, tau, lambda, error) in the column order of the pedigree file
                 got = [(got_par[j], int(arrs["gamete_tau"][i][j]), float(arrs["gamete_lambda"][i][j]), float(arrs["gamete_error"][i][j])) for j in (0, 1)]
@@ -845,4 +849,41 @@ def run_pedigree_cli(ctx):
             ctx.counters.inc("cli_pedigrees_checked")
             if cfg["dummy_parent"]:
                 ctx.counters.inc("cli_unsequenced_member")
-        ctx.key("cli-ped", pl, tuple(sorted((s, parents[s]) for s in everyone)), cfg["tau_mode"], cfg["lambda_mode"], cfg["error_mode"])
+        if len(set(pls.values())) > 1:
+            ctx.counters.inc("cli_mixed_ploidy_pedigree")
+        if report:
+            # the printed genotype of every individual, read back through the output record's own allele sequences, holds the printed
+            # GPM of that individual's trace after --mcmc-burn (padding of lower-ploidy rows excluded)
+            by = {r["locus"]: r for r in recs}
+            for vr in parsed:
+                rec = by.get(vr["id"])
+                l = by_name[vr["id"]]
+                out_seqs = [vr["ref"]] + vr["alts"]
+                for s in columns:
+                    gt = vr["samples"][s]["GT"].replace("|", "/").split("/")
+                    if rec is None:
+                        continue
+                    where = "locus %s, individual %s (ploidy %d)" % (vr["id"], s, pls[s])
+                    if len(gt) != pls[s]:
+                        raise Violation("cli_report", "call-pedigree prints GT %s (%d alleles) for %s" % (vr["samples"][s]["GT"], len(gt), where), step=0)
+                    try:
+                        key = tuple(sorted(l["seqs"].index(out_seqs[int(a)]) for a in gt))
+                    except (ValueError, IndexError):
+                        raise Violation("cli_report", "call-pedigree prints GT %s for %s, which does not spell alleles of the input record" % (vr["samples"][s]["GT"], where), step=0)
+                    i = rec["samples"].index(s)
+                    lookup = {r: k for k, r in enumerate(encode_sequences(l["seqs"]))}
+                    amap = [lookup[tuple(int(a) for a in h)] for h in np.asarray(rec["model"].haplotypes)]
+                    tr = rec["trace"][:, cfg["mcmc_burn"]:, i, :]
+                    n = tot = 0
+                    for chain in tr:
+                        for g in chain:
+                            called = [int(a) for a in g if int(a) >= 0]
+                            tot += 1
+                            if len(called) == pls[s] and tuple(sorted(amap[a] for a in called)) == key:
+                                n += 1
+                    want = n / tot
+                    if abs(float(vr["samples"][s]["GPM"]) - want) > 0.0006:
+                        raise Violation("cli_report", "call-pedigree prints GT %s with GPM %s for %s; that genotype holds %.6f of the individual's retained trace"
+                                        % (vr["samples"][s]["GT"], vr["samples"][s]["GPM"], where, want), step=0, detail={"masked": l["masked"], "afp": l["afp"]})
+                    ctx.counters.inc("cli_reports_checked")
+        ctx.key("cli-ped", tuple(sorted(pls.items())), tuple(sorted((s, parents[s]) for s in everyone)), cfg["tau_mode"], cfg["lambda_mode"], cfg["error_mode"])
